@@ -361,6 +361,8 @@ def run_stream(rep, tier, seed):
         "longest_model_only_chain_per_history": [chained[j][0] for j in sorted(chained)]}
     nviol += run_sub_stream(rep, tier, seed)
     nviol += run_grow_stream(rep, tier, seed)
+    from props import cvoltree_corr          # directories in the fixed root (Model/VolDirTree.v): create_dir / remove
+    nviol += cvoltree_corr.run_tree_stream(rep, tier, seed)
     return nviol
 
 
